@@ -245,6 +245,7 @@ class Check(object):
         solve.discharge(self.queries, jobs=self.args.jobs, progress=progress)
         solve_wall = time.time() - t_solve0
         by_group = {}
+        lenient_twins = {}
         for q in self.queries:
             g = by_group.setdefault(q.group, {"queries": 0, "ok": 0, "solver_s": 0.0, "max_s": 0.0, "solver": q.solver,
                                               "expect": q.expect})
@@ -258,6 +259,13 @@ class Check(object):
                 self.inconclusive.append("%s: solver %s inconclusive (%s)" % (q.name, q.solver, q.error))
                 continue
             if q.expect == "sat":
+                tg = q.info.get("twin_group")
+                if tg is not None and q.result == "unsat":
+                    # a path kept because its feasibility was not decided during exploration turned out infeasible:
+                    # its obligations are vacuous; tolerated as long as the instance has at least one feasible path
+                    lenient_twins.setdefault(tg, []).append(q)
+                    g["ok"] += 1
+                    continue
                 self.inconclusive.append("%s: reachability twin is unsat -- vacuous harness" % q.name)
                 continue
             # an obligation is sat: replay natively
@@ -278,6 +286,11 @@ class Check(object):
             self.validated += 1
             self.violation(out.get("what", q.name), out.get("data", {"model": {k: str(v) for k, v in model.items()}}),
                            key=out.get("key"))
+        for tg, qs in lenient_twins.items():
+            if not any(q.expect == "sat" and q.result == "sat" and q.info.get("twin_group") == tg for q in self.queries):
+                self.inconclusive.append("harness instance %s: no feasible path at all -- vacuous" % tg)
+            self.notes.append("instance %s: %d explored path(s) proved infeasible by the solver (vacuous obligations)"
+                              % (tg, len(qs)))
         for m in self.validation_mismatches:
             self.inconclusive.append("translator validation mismatch: " + m)
 
@@ -319,7 +332,7 @@ class Check(object):
                 "obligations": len(obligations),
                 "discharged": sum(1 for q in obligations if q.ok()),
                 "reachability_twins": len(twins),
-                "twins_sat": sum(1 for q in twins if q.ok()),
+                "twins_sat": sum(1 for q in twins if q.result == "sat"),
                 "exhaustive": False,
                 "paths_explored": self.paths,
                 "functions_encoded": self.functions,
@@ -375,7 +388,8 @@ def _guard(fn, task):
         return {"error": "%s\n%s" % (exc, traceback.format_exc())}
 
 
-def path_queries(path, solver="z3", timeout_s=60, prefix="", group_prefix="", twin=True, extra_info=None):
+def path_queries(path, solver="z3", timeout_s=60, prefix="", group_prefix="", twin=True, extra_info=None,
+                 twin_group=None):
     """Queries for one explored path: one per obligation, plus the reachability twin of the path."""
     out = []
     for (name, cond, info, axioms, pc) in path.obligations:
@@ -385,8 +399,11 @@ def path_queries(path, solver="z3", timeout_s=60, prefix="", group_prefix="", tw
                                           timeout_s=inf.pop("timeout_s", timeout_s), info=inf,
                                           group=group_prefix + name))
     if twin:
+        tinfo = dict(extra_info or {})
+        if twin_group is not None:
+            tinfo["twin_group"] = twin_group
         out.append(solve.reach_query(prefix + "reach", path.hyp(), solver=solver, timeout_s=timeout_s,
-                                     info=dict(extra_info or {}), group=group_prefix + "reachability-twin"))
+                                     info=tinfo, group=group_prefix + "reachability-twin"))
     return out
 
 
